@@ -272,6 +272,31 @@ def _single_clause(t, g):
     return False
 
 
+class _Pfx:
+    """Re-label the rule ids of a shared rule with this property's prefix."""
+
+    def __init__(self, ctx):
+        self._c = ctx
+
+    def _r(self, rule):
+        return "C08" + rule[3:]
+
+    def expect(self, cond, rule, *a, **k):
+        return self._c.expect(cond, self._r(rule), *a, **k)
+
+    def violation(self, rule, *a, **k):
+        return self._c.violation(self._r(rule), *a, **k)
+
+    def ok(self, rule, *a, **k):
+        return self._c.ok(self._r(rule), *a, **k)
+
+    def floor(self, rule, *a, **k):
+        return self._c.floor(self._r(rule), *a, **k)
+
+    def __getattr__(self, n):
+        return getattr(self._c, n)
+
+
 def run(ctx, fb, cfg):
     lib = fb.lib
     R = "C08."
@@ -281,3 +306,12 @@ def run(ctx, fb, cfg):
     check_builder(ctx, lib, R + "K6.builder", "Conda")
     check_builder(ctx, lib, R + "K6.builder", "Condu")
     check_delegation(ctx, lib, R + "K3.delegation")
+    # matcha / matchu commit on the *first goal* of an arm: the macro must hand each arm over as
+    # [eq(term, pattern), body...] (template rule shared with C13)
+    if cfg == "lib-default":
+        import C13
+        import macrolib
+
+        S = macrolib.load_sem(ctx, fb)
+        if S is not None:
+            C13.check_templates(_Pfx(ctx), S)
